@@ -392,6 +392,21 @@ fn traded_per_step(env: &Env, t0: u64, step_size: u64) -> Vec<u32> {
     }
     v
 }
+/// Same, for scripts whose step size is 0 (the clock never moves, so time windows say nothing): the growth of the trade log
+/// between the ends of consecutive steps (`marks[j]` = log length after step j).
+fn traded_steps(env: &Env, t0: u64, step_size: u64, marks: &[usize]) -> Vec<u32> {
+    if step_size > 0 {
+        return traded_per_step(env, t0, step_size);
+    }
+    let tr = env.get_trades();
+    let mut v = Vec::new();
+    let mut lo = 0usize;
+    for m in marks {
+        v.push(tr[lo..*m].iter().map(|t| t.vol).sum());
+        lo = *m;
+    }
+    v
+}
 fn doc_level1(env: &Env, traded: u32) -> Vec<u32> {
     let d = env.level_2_data();
     vec![traded, d.bid_price, d.ask_price, d.bid_vol, d.ask_vol, d.bid_price_levels[0].0, d.bid_price_levels[0].1, d.ask_price_levels[0].0, d.ask_price_levels[0].1]
@@ -435,6 +450,7 @@ pub struct LayoutStats {
     pub reads_before_first_step: usize,
     pub reads_between_submission_and_step: usize,
     pub repeated_reads_within_a_step: usize,
+    pub tiny_step_scripts: usize,
     pub quiet_steps: usize,
     pub steps_that_traded: usize,
     pub states: usize,
@@ -446,7 +462,14 @@ pub struct LayoutStats {
 pub fn gen_layout_script(id: usize, rng: &mut Sm, numpy_env: bool, st: &mut LayoutStats) -> Value {
     let tick = rng.range(1, 10) as u32;
     let t0 = rng.below(1000);
-    let step_size = *rng.pick(&[64u64, 1000]);
+    // one script in sixteen runs with a degenerate step size (0, 1 or 2 time units per step) and at most step_size + 1
+    // instructions per step, so that the clock still never moves backwards
+    let tiny = rng.chance(0.06);
+    let step_size = if tiny { rng.below(3) } else { *rng.pick(&[64u64, 1000]) };
+    if tiny {
+        st.tiny_step_scripts += 1;
+    }
+    let mut marks: Vec<usize> = Vec::new();
     let seed = rng.next() >> 8;
     let mut env: Env = Env::new(t0, tick, step_size, true);
     let mut xr = Xoroshiro128StarStar::seed_from_u64(seed);
@@ -484,9 +507,10 @@ pub fn gen_layout_script(id: usize, rng: &mut Sm, numpy_env: bool, st: &mut Layo
             st.quiet_steps += 1;
         }
         // asymmetric by construction: different counts and volumes on the two sides, several levels
-        let ladder = !quiet && rng.chance(0.25);
-        let nb = if quiet { 0 } else if ladder { 12 } else { rng.range(0, 7) as usize };
-        let na = if quiet { 0 } else if ladder { 12 } else { rng.range(0, 7) as usize };
+        let ladder = !quiet && !tiny && rng.chance(0.25);
+        let budget = step_size as usize + 1; // tiny scripts: instructions per step
+        let nb = if quiet { 0 } else if ladder { 12 } else if tiny { rng.range(0, budget as u64) as usize } else { rng.range(0, 7) as usize };
+        let na = if quiet { 0 } else if ladder { 12 } else if tiny { budget - nb - if nb < budget && rng.chance(0.3) { 1 } else { 0 } } else { rng.range(0, 7) as usize };
         let mut sides = Vec::new();
         let mut vols = Vec::new();
         let mut traders = Vec::new();
@@ -505,7 +529,7 @@ pub fn gen_layout_script(id: usize, rng: &mut Sm, numpy_env: bool, st: &mut Layo
         }
         // cancels of active orders
         let act: Vec<usize> = env.get_orders().iter().filter(|o| o.status == bourse_book::types::Status::Active).map(|o| o.order_id).collect();
-        let n_cancel = if act.is_empty() || quiet { 0 } else { rng.below(3.min(act.len() as u64 + 1)) as usize };
+        let n_cancel = if act.is_empty() || quiet { 0 } else if tiny { (budget - nb - na).min(1) } else { rng.below(3.min(act.len() as u64 + 1)) as usize };
         let cancels: Vec<usize> = (0..n_cancel).map(|_| *rng.pick(&act)).collect();
         if quiet {
         } else if numpy_env {
@@ -593,13 +617,13 @@ pub fn gen_layout_script(id: usize, rng: &mut Sm, numpy_env: bool, st: &mut Layo
                 env.cancel_order(*c);
                 calls.push(call("cancel_order", json!([c]), json!({}), json!({"v": null})));
             }
-            if rng.chance(0.3) {
+            if !tiny && rng.chance(0.3) {
                 let vol = rng.range(1, 60) as u32;
                 let bid = rng.chance(0.5);
                 let i = env.place_order(side_of(bid), vol, 9, None).unwrap();
                 calls.push(call("place_order", json!([bid, vol, 9]), json!({}), json!({"v": i})));
             }
-            if rng.chance(0.1) {
+            if !tiny && rng.chance(0.1) {
                 // a market order in a no-trading step ends Rejected (status 4)
                 env.disable_trading();
                 calls.push(call("disable_trading", json!([]), json!({}), json!({"v": null})));
@@ -611,7 +635,7 @@ pub fn gen_layout_script(id: usize, rng: &mut Sm, numpy_env: bool, st: &mut Layo
         if rng.chance(0.25) {
             // between the submissions and the step the arrays still describe the end of the previous step
             st.reads_between_submission_and_step += 1;
-            let tr = traded_per_step(&env, t0, step_size);
+            let tr = traded_steps(&env, t0, step_size, &marks);
             let lt = *tr.last().unwrap_or(&0);
             let asym = is_asym(&env);
             if numpy_env {
@@ -621,6 +645,7 @@ pub fn gen_layout_script(id: usize, rng: &mut Sm, numpy_env: bool, st: &mut Layo
             }
         }
         env.step(&mut xr);
+        marks.push(env.get_trades().len());
         calls.push(call("step", json!([]), json!({}), json!({"v": null})));
         if reenable {
             env.enable_trading();
@@ -628,7 +653,7 @@ pub fn gen_layout_script(id: usize, rng: &mut Sm, numpy_env: bool, st: &mut Layo
             reenable = false;
         }
         let asym = is_asym(&env);
-        let traded = traded_per_step(&env, t0, step_size);
+        let traded = traded_steps(&env, t0, step_size, &marks);
         let last_traded = *traded.last().unwrap_or(&0);
         if last_traded > 0 {
             st.steps_that_traded += 1;
@@ -657,7 +682,7 @@ pub fn gen_layout_script(id: usize, rng: &mut Sm, numpy_env: bool, st: &mut Layo
             calls.push(layout(l2, doc_level2(&env, last_traded), asym));
         }
     }
-    let traded = traded_per_step(&env, t0, step_size);
+    let traded = traded_steps(&env, t0, step_size, &marks);
     calls.push(json!({"m": "get_market_data", "args": [], "kwargs": {}, "expect": market_data_expect(&env, &traded)}));
     if !numpy_env {
         // one order left unplaced (status New) for the data-frame helpers
@@ -772,7 +797,7 @@ pub fn write_scripts(seed: u64, n: usize, path: &str) -> i32 {
     let scratch = std::env::var("BVMON_SCRATCH").unwrap_or_else(|_| "/tmp".into());
     std::fs::create_dir_all(&scratch).ok();
     let mut scripts = Vec::new();
-    let mut st = LayoutStats { bottom_of_range_scripts: 0, top_of_range_scripts: 0, reads_before_first_step: 0, reads_between_submission_and_step: 0, repeated_reads_within_a_step: 0, quiet_steps: 0, steps_that_traded: 0, states: 0, asym_states: 0, keys: Vec::new() };
+    let mut st = LayoutStats { bottom_of_range_scripts: 0, top_of_range_scripts: 0, reads_before_first_step: 0, reads_between_submission_and_step: 0, repeated_reads_within_a_step: 0, tiny_step_scripts: 0, quiet_steps: 0, steps_that_traded: 0, states: 0, asym_states: 0, keys: Vec::new() };
     for i in 0..n {
         match i % 4 {
             0 => scripts.push(gen_orderbook_script(i, &mut rng, 60, &scratch).script),
@@ -907,7 +932,7 @@ pub fn c19(ctx: &Ctx) -> i32 {
     let n_scripts = ctx.tier.pick(2000, 25_000);
     let mut rng = Sm::derive(ctx.seed, 0xC19);
     let mut scripts = Vec::new();
-    let mut st = LayoutStats { bottom_of_range_scripts: 0, top_of_range_scripts: 0, reads_before_first_step: 0, reads_between_submission_and_step: 0, repeated_reads_within_a_step: 0, quiet_steps: 0, steps_that_traded: 0, states: 0, asym_states: 0, keys: Vec::new() };
+    let mut st = LayoutStats { bottom_of_range_scripts: 0, top_of_range_scripts: 0, reads_before_first_step: 0, reads_between_submission_and_step: 0, repeated_reads_within_a_step: 0, tiny_step_scripts: 0, quiet_steps: 0, steps_that_traded: 0, states: 0, asym_states: 0, keys: Vec::new() };
     for i in 0..n_scripts {
         scripts.push(gen_layout_script(i, &mut rng, i % 2 == 1, &mut st));
     }
@@ -981,6 +1006,7 @@ pub fn c19(ctx: &Ctx) -> i32 {
         "dataframe_checks": r["dataframe_checks"],
         "self_oracle_checks": r["self_oracle_checks"],
         "repeated_reads_within_a_step": st.repeated_reads_within_a_step,
+        "scripts_with_step_size_0_1_or_2": st.tiny_step_scripts,
         "returned_values_overwritten_by_the_caller": r["returns_overwritten_by_caller"],
         "scripts_whose_state_left_the_rust_twin": r["twin_divergences"],
         "doc_tables": r["doc"],
